@@ -23,7 +23,9 @@ stated by the property (grid axes followed by symmetric axes; ``REF`` below, har
                  back on them - no curvilinear formula enters, so the physical direction that the
                  operator associates with data index i is determined independently
 * ``products``   dot / outer_product / transpose / trace on all unit fields (a determining set of
-                 the bilinear maps), field methods and backend operators (numba overloads in mode J)
+                 the bilinear maps) and generic fields against the explicit component formula:
+                 field methods and backend operators (numba overloads in mode J), real operands and
+                 complex operands with conjugate=True/False (second operand conjugated)
 * ``tocart``     ``grid._vector_to_cartesian`` on a point lattice, ``VectorField.interpolate_to_grid``
                  to Cartesian grids for all unit fields e_i (image must be the unit vector of axis
                  name i at every target cell inside the domain and off the axis - a constant
@@ -739,9 +741,15 @@ def _opt_str(opts):
 
 
 def _unit(ctx, idx, w):
-    data = np.zeros((ctx.dim,) * len(idx) + tuple(ctx.grid.shape))
+    data = np.zeros((ctx.dim,) * len(idx) + tuple(ctx.grid.shape), dtype=np.asarray(w).dtype)
     data[tuple(idx)] = w
     return data
+
+
+def _generic_phase(seed, shape, salt):
+    """generic complex numbers of modulus in [0.5, 1.5] and generic phase, derived from VERIF_SEED"""
+    rng = np.random.default_rng([int(seed), 1919, int(salt), 77])
+    return rng.uniform(0.5, 1.5, size=shape) * np.exp(1j * rng.uniform(0.3, 2 * np.pi - 0.3, size=shape))
 
 
 def _c_products(ctx):
@@ -749,46 +757,66 @@ def _c_products(ctx):
 
     ``i``/``j`` select one pair; ``pairs == "all"`` runs every pair with operators that are created
     once (used in mode J, where creating an operator means compiling it).
+
+    ``conjugate`` absent: real operands.  ``conjugate`` = True/False: COMPLEX operands (unit fields
+    times generic complex amplitudes, generic complex fields) and the dot products are requested
+    with this flag; oracle = the explicit component formula  sum_j a_..j * conj(b_j..)  (conj only if
+    conjugate=True; the outer product never conjugates), so field methods, numpy operators and
+    numba operators (mode J: the overloads) all agree with it and with each other.
     """
     from pde import ScalarField, Tensor2Field, VectorField
 
     g, d = ctx.grid, ctx.dim
     backend = ctx.case["backend"]
+    conj = ctx.case.get("conjugate")  # None -> real operands
+    cplx = conj is not None
+    cj = np.conj if conj else (lambda x: x)
+    dot_kw = {} if not cplx else {"conjugate": bool(conj)}
     if ctx.case.get("pairs") == "all":
         pairs = [(i, j) for i in range(d) for j in range(d)]
     else:
         pairs = [(ctx.case["i"], ctx.case["j"])]
     kinds = ctx.case.get("kinds") or ["vv", "outer", "tv", "vt", "tt"]  # a subset only in mode J
-    wa = _generic(ctx.case["seed"], g.shape, 2)
-    wb = _generic(ctx.case["seed"], g.shape, 3)
-    wc = _generic(ctx.case["seed"], g.shape, 4)
+    gen = _generic_phase if cplx else _generic
+    wa, wb, wc = (gen(ctx.case["seed"], g.shape, s) for s in (2, 3, 4))
     tol = TOL_EXACT * 10
     cur = [0, 0]
+    branch = {"vv": "vector.vector", "tv": "tensor.vector", "vt": "vector.tensor", "tt": "tensor.tensor", "outer": "outer"}
 
-    def check(what, got, exp, family):
+    def check(what, got, exp, family, kind=None):
         ctx.n += 1
         got = np.asarray(got)
         if got.shape != exp.shape or np.abs(got - exp).max() > tol:
             lead = got.ndim - len(g.shape)
             nz = np.argwhere(np.abs(got).reshape(*got.shape[:lead], -1).max(-1) > tol).tolist() if lead > 0 else []
             err = float(np.abs(got - exp).max()) if got.shape == exp.shape else "shape"
-            ctx.bad(
-                family,
-                f"{backend}|{what}",
-                f"{what} for i={ctx.ref[cur[0]]}, j={ctx.ref[cur[1]]}: result has non-zero components {nz}, max error {err}",
-            )
+            msg = f"{what} for i={ctx.ref[cur[0]]}, j={ctx.ref[cur[1]]}: result has non-zero components {nz}, max error {err}"
+            if cplx:
+                fam = "dot" if family == "dot" else "outer_product"
+                ctx.bad_sig(
+                    f"{ctx.cls}|{fam} ({backend})|complex operands|differs from the component formula|{branch[kind]} conjugate={bool(conj)}",
+                    f"complex operands, conjugate={bool(conj)}, backend {backend}: " + msg,
+                )
+            else:
+                ctx.bad(family, f"{backend}|{what}", msg)
 
     outer = None
     if backend == "field":
-        dot_vv = lambda x, y: VectorField(g, x).dot(VectorField(g, y)).data  # noqa: E731
+        dot_vv = lambda x, y: VectorField(g, x).dot(VectorField(g, y), **dot_kw).data  # noqa: E731
+        dot_tv = lambda t, x: Tensor2Field(g, t).dot(VectorField(g, x), **dot_kw).data  # noqa: E731
+        dot_vt = lambda x, t: VectorField(g, x).dot(Tensor2Field(g, t), **dot_kw).data  # noqa: E731
+        dot_tt = lambda t, s: Tensor2Field(g, t).dot(Tensor2Field(g, s), **dot_kw).data  # noqa: E731
         outer = lambda x, y: VectorField(g, x).outer_product(VectorField(g, y)).data  # noqa: E731
-        dot_tv = lambda t, x: Tensor2Field(g, t).dot(VectorField(g, x)).data  # noqa: E731
-        dot_vt = lambda x, t: VectorField(g, x).dot(Tensor2Field(g, t)).data  # noqa: E731
-        dot_tt = lambda t, s: Tensor2Field(g, t).dot(Tensor2Field(g, s)).data  # noqa: E731
+        if cplx and "outer" in kinds:
+            try:
+                outer(_unit(ctx, [0], wa), _unit(ctx, [0], wb))
+            except TypeError as e:  # the result field is allocated with a real dtype
+                ctx.refs.append(f"VectorField.outer_product of complex fields: TypeError {str(e)[:60]}")
+                outer = None
     else:
         vf, tf = VectorField(g, 0.0), Tensor2Field(g, 0.0)
-        dot_vv = dot_vt = vf.make_dot_operator(backend)
-        dot_tv = dot_tt = tf.make_dot_operator(backend)
+        dot_vv = dot_vt = vf.make_dot_operator(backend, **dot_kw)
+        dot_tv = dot_tt = tf.make_dot_operator(backend, **dot_kw)
         try:
             outer = vf.make_outer_prod_operator(backend)
         except NotImplementedError as e:
@@ -799,7 +827,7 @@ def _c_products(ctx):
     for i, j in pairs:
         cur[:] = [i, j]
         a, b = _unit(ctx, [i], wa), _unit(ctx, [j], wb)
-        if backend == "field" and "outer" in kinds and "vv" in kinds:
+        if backend == "field" and not cplx and "outer" in kinds and "vv" in kinds:
             va, vb = VectorField(g, a), VectorField(g, b)
             T = va.outer_product(vb)
             # by name: the (name_i, name_j) component of the outer product
@@ -811,31 +839,41 @@ def _c_products(ctx):
             if not isinstance(res, ScalarField):
                 ctx.bad("dot", "field|vector @ vector is not a ScalarField", type(res).__name__)
         if "vv" in kinds:
-            check("dot(e_i, e_j)", dot_vv(a, b), (wa * wb) * (i == j), "dot")
+            check("dot(e_i, e_j)", dot_vv(a, b), (wa * cj(wb)) * (i == j), "dot", "vv")
         if outer is not None:
-            check("outer_product(e_i, e_j)", outer(a, b), _unit(ctx, [i, j], wa * wb), "outer_product")
+            check("outer_product(e_i, e_j)", outer(a, b), _unit(ctx, [i, j], wa * wb), "outer_product", "outer")
         T = _unit(ctx, [i, j], wa)
         for k in range(d):
             ek = _unit(ctx, [k], wc)
             # (e_i e_j^T) . e_k = delta_jk e_i ;   e_k . (e_i e_j^T) = delta_ki e_j
             if "tv" in kinds:
-                check("dot(e_i e_j^T, e_k)", dot_tv(T, ek), _unit(ctx, [i], wa * wc) * (j == k), "dot")
+                check("dot(e_i e_j^T, e_k)", dot_tv(T, ek), _unit(ctx, [i], wa * cj(wc)) * (j == k), "dot", "tv")
             if "vt" in kinds:
-                check("dot(e_k, e_i e_j^T)", dot_vt(ek, T), _unit(ctx, [j], wa * wc) * (i == k), "dot")
+                check("dot(e_k, e_i e_j^T)", dot_vt(ek, T), _unit(ctx, [j], wc * cj(wa)) * (i == k), "dot", "vt")
             for l in range(d):
                 if "tt" not in kinds:
                     break
                 S = _unit(ctx, [k, l], wc)
-                check("dot(e_i e_j^T, e_k e_l^T)", dot_tt(T, S), _unit(ctx, [i, l], wa * wc) * (j == k), "dot")
-    # superposition (the maps are bilinear: unit fields are a determining set)
-    ga = _generic(ctx.case["seed"], (d, *g.shape), 5)
-    gb = _generic(ctx.case["seed"], (d, *g.shape), 6)
-    exp = sum(ga[m] * gb[m] for m in range(d))
+                check("dot(e_i e_j^T, e_k e_l^T)", dot_tt(T, S), _unit(ctx, [i, l], wa * cj(wc)) * (j == k), "dot", "tt")
+    # superposition (the maps are bilinear: unit fields are a determining set): generic fields
+    # against the explicit component formulas
+    ga, gb = gen(ctx.case["seed"], (d, *g.shape), 5), gen(ctx.case["seed"], (d, *g.shape), 6)
+    gt, gs = gen(ctx.case["seed"], (d, d, *g.shape), 10), gen(ctx.case["seed"], (d, d, *g.shape), 11)
+    R = range(d)
     if "vv" in kinds:
-        check("dot of generic fields", dot_vv(ga, gb), exp, "dot")
+        check("dot of generic vectors", dot_vv(ga, gb), sum(ga[m] * cj(gb[m]) for m in R), "dot", "vv")
+    if "tv" in kinds:
+        exp = np.stack([sum(gt[m, n] * cj(gb[n]) for n in R) for m in R])
+        check("dot of generic tensor and vector", dot_tv(gt, gb), exp, "dot", "tv")
+    if "vt" in kinds:
+        exp = np.stack([sum(ga[m] * cj(gt[m, n]) for m in R) for n in R])
+        check("dot of generic vector and tensor", dot_vt(ga, gt), exp, "dot", "vt")
+    if "tt" in kinds:
+        exp = np.stack([np.stack([sum(gt[m, k] * cj(gs[k, n]) for k in R) for n in R]) for m in R])
+        check("dot of generic tensors", dot_tt(gt, gs), exp, "dot", "tt")
     if outer is not None:
-        exp = np.stack([np.stack([ga[m] * gb[n] for n in range(d)]) for m in range(d)])
-        check("outer product of generic fields", outer(ga, gb), exp, "outer_product")
+        exp = np.stack([np.stack([ga[m] * gb[n] for n in R]) for m in R])
+        check("outer product of generic fields", outer(ga, gb), exp, "outer_product", "outer")
 
 
 # -- conversion to Cartesian ---------------------------------------------------------------------
@@ -1343,10 +1381,13 @@ def _order_cases(tier, seed, angles):
                     C(clause="operator", op="tensor_divergence", terms=[[[1, 2], f, 1.0], [[2, 1], f, -1.0]], opts=o)
                     C(clause="operator", op="tensor_divergence", terms=[[[0, 0], f, 1.0], [[1, 1], f, 0.5], [[2, 2], f, 0.5]], opts=o)
         # products
+        # real operands, and complex operands with conjugate=True/False
         for backend in ("field", "numpy", "numba"):
             for i in range(d):
                 for j in range(d):
                     C(clause="products", i=i, j=j, backend=backend)
+                    for conj in (True, False):
+                        C(clause="products", i=i, j=j, backend=backend, conjugate=conj)
         # conversion to Cartesian
         for i in range(d):
             C(clause="tocart_direct", i=i, lattice={n: lattice[n] for n in ref})
@@ -1438,12 +1479,16 @@ def _jit_subset(cases, tier):
             for kind in ("vv", "outer", "tv", "vt", "tt"):  # one compilation each
                 sub = {k: v for k, v in c.items() if k not in ("i", "j")}
                 sub.update(pairs="all", kinds=[kind])
-                bundles.setdefault((cls, cl, kind), []).append(sub)
+                # one bundle per compiled signature (real / complex x conjugate flag)
+                bundles.setdefault((cls, cl, kind, str(c.get("conjugate"))), []).append(sub)
         elif cl == "tocart" and c["build"] == "index" and c["family"].startswith("unit") and "bounds" in c["target"] and c["target"]["bounds"][0][0] > 0:
             bundles.setdefault((cls, cl, ""), []).append(c)
         elif cl == "operator" and c["terms"][0][1] == "r" and (tier != "quick" or (c["op"] in ("gradient", "divergence", "vector_gradient") and not c["opts"].get("conservative"))):
             bundles.setdefault((cls, cl, c["op"]), []).append(c)
-    return [{"bundle": list(k), "cases": v} for k, v in bundles.items()]
+    # most expensive compilations first (3-d data on the cylinder, tensor.tensor), so that they
+    # do not end up at the tail of the pool
+    cost = lambda k: (not k[0].startswith("Cylindrical"), {"tt": 0, "tv": 1, "vt": 1}.get(k[2], 2))  # noqa: E731
+    return [{"bundle": list(k), "cases": bundles[k]} for k in sorted(bundles, key=cost)]
 
 
 def main(run):
